@@ -254,6 +254,10 @@ def h_fault(name, mode, cutboxvector='c'):
             new = sf.fault(a1=a1, a2=a2, outofplane=oo)
             shift = [a1 * float(A1[j]) + a2 * float(A2[j]) + oo * float(o[j]) for j in range(3)]
             fault_obligations(sf, base, atype, new, shift, fpv, ob, 'fault(a1,a2,outofplane)')
+            # fault() works on a copy of the stored system: the same call again gives the same result, and the stored system is still the perfect slab
+            again = sf.fault(a1=a1, a2=a2, outofplane=oo)
+            ob.append(('fault() called twice with the same arguments returns the same positions (shifts do not accumulate)', band(again.natoms == new.natoms, *[close(again.atoms.pos[i, j], new.atoms.pos[i, j], 1e-9, 100.0) for i in range(new.natoms) for j in range(3)])))
+            ob.append(('the stored perfect slab is untouched by fault()', band(*[close(sf.system.atoms.pos[i, j], base[i][j], 1e-9, 100.0) for i in range(len(base)) for j in range(3)])))
         elif mode == 'faultshift':
             rel = var('faultpos_rel', 0.3, 0.7)
             sf.faultpos_rel = rel
@@ -419,7 +423,28 @@ def h_surface_samples():
                                 and rel.min() > 1e-6 and rel.max() < 1 - 1e-6 and sorted(np.unique(s.atoms.atype).tolist()) == sorted(np.unique(uc.atoms.atype).tolist()))
                         if not good:
                             okall = False; why = f'shift {k} sizemults {sm}: natoms {s.natoms} vs {n_expect}, pbc {s.pbc}, rel range {rel.min():.3g}..{rel.max():.3g}'
+                if kind == 'bcc' and okall:
+                    # B2 ordering survives the re-orientation and replication: all first neighbours of an atom are of the other species
+                    s_ = fs.surface(shiftindex=0, sizemults=[2, 1, 3] if cb == 'c' else ([3, 2, 1] if cb == 'a' else [1, 3, 2]), vacuumwidth=0.0)
+                    nl_ = am.NeighborList(system=s_, cutoff=0.9 * 2.87)
+                    t_ = np.asarray(s_.atoms.atype)
+                    if not all(all(t_[j] != t_[i] for j in nl_[i]) for i in range(s_.natoms)) or nl_.coord.max() == 0:
+                        okall = False; why = 'species misplaced: an atom of the B2 slab has a first neighbour of its own type'
                 ob.append((f'{tag}: same crystal ({len(fs.shifts)} shifts), non-periodic only across the surface, every offered shift cuts strictly between atomic planes {why}', okall and len(fs.shifts) > 0))
+        # documented refusal: orientation incompatible with the requested cut vector (monoclinic (100), cut vector a:
+        # the rotated cell has an in-plane vector with an x component)
+        mono = am.System(atoms=am.Atoms(pos=[[0.0, 0.0, 0.0], [0.875, 0.0, 0.5]]), box=am.Box(vects=[[4.0, 0.0, 0.0], [0.0, 3.0, 0.0], [-1.0, 0.0, 5.0]]), scale=True, symbols='Au')
+        label = 'monoclinic (100), cut vector a: either refused (orientation incompatible with the cut vector) or every offered shift cuts between atomic planes'
+        try:
+            fsm = am.defect.FreeSurface([1, 0, 0], mono, cutboxvector='a')
+            cb_ok = True
+            for k in range(len(fsm.shifts)):
+                sm_ = fsm.surface(shiftindex=k, sizemults=[1, 1, 1])
+                rel = sm_.box.position_cartesian_to_relative(sm_.atoms.pos)[:, 0]
+                cb_ok = cb_ok and rel.min() > 1e-6 and rel.max() < 1 - 1e-6
+            ob.append((label, bool(cb_ok)))
+        except ValueError:
+            ob.append((label, True))
         return ob
     return fn
 
